@@ -514,6 +514,16 @@ func (c *Ctx) runDirectUse(res *ssa.Function, kinds *core.Kinds, wMatch int64) {
 				}
 			}
 		}
+		// library form: slices.Contains(g.OutEdges(out), root)
+		if l.Kind == "call" && l.Pol && rootP != nil {
+			if cl, ok := l.Of.(*ssa.Call); ok && len(cl.Common().Args) == 2 {
+				if pk, fn := core.StdCallee(cl.Common().StaticCallee()); pk == "slices" && fn == "Contains" && p.Bind(core.Strip(cl.Common().Args[1])) == ssa.Value(rootP) {
+					if r, ok := core.Root(cl.Common().Args[0]).(*ssa.Call); ok && core.CalleeName(r.Common()) == core.GOutEdges && r.Common().Args[1] == outV {
+						hangs = true
+					}
+				}
+			}
+		}
 		if l.Kind == "cmp" && l.Op == token.EQL && l.Pol && rootP != nil {
 			for _, pair := range [][2]ssa.Value{{l.X, l.Y}, {l.Y, l.X}} {
 				if p.Bind(pair[1]) == ssa.Value(rootP) {
